@@ -363,6 +363,30 @@ class Desugar(ast.NodeTransformer):
                   and isinstance(n.ctx, (ast.Store, ast.Del))}
         _TUPLE_NAMES[0] = ({node.args.vararg.arg} - stored) \
             if node.args.vararg else set()
+        # a parameter annotated as a tuple, never re-bound, is one; so is a
+        # local bound once to a slice of such a name
+        for a in node.args.args + node.args.kwonlyargs:
+            if a.annotation is not None and a.arg not in stored and \
+                    ast.unparse(a.annotation).split("[")[0] in (
+                        "tuple", "Tuple", "typing.Tuple"):
+                _TUPLE_NAMES[0] = _TUPLE_NAMES[0] | {a.arg}
+        grew = True
+        while grew:
+            grew = False
+            for n in ast.walk(node):
+                if isinstance(n, ast.Assign) and len(n.targets) == 1 and \
+                        isinstance(n.targets[0], ast.Name) and isinstance(
+                            n.value, ast.Subscript) and isinstance(
+                                n.value.slice, ast.Slice) and isinstance(
+                                    n.value.value, ast.Name) and \
+                        n.value.value.id in _TUPLE_NAMES[0] and \
+                        n.targets[0].id not in _TUPLE_NAMES[0] and sum(
+                            1 for x in ast.walk(node) if isinstance(
+                                x, ast.Name) and x.id == n.targets[0].id
+                            and isinstance(x.ctx, (ast.Store, ast.Del))
+                        ) == 1:
+                    _TUPLE_NAMES[0] = _TUPLE_NAMES[0] | {n.targets[0].id}
+                    grew = True
         try:
             return self.generic_visit(node)
         finally:
